@@ -131,6 +131,34 @@ type Insert struct {
 	Pos       string   `json:"pos"`
 }
 
+// Risky: an operation that can panic on caller-controlled data, inside a critical section opened in the same function
+type Risky struct {
+	Mu       string `json:"mu"`
+	Op       string `json:"op"`
+	Deferred bool   `json:"unlockDeferred"`
+	Phase    string `json:"phase"`
+	Fn       string `json:"fn"`
+	Pos      string `json:"pos"`
+}
+
+// CallerStore: a struct field of map/slice type is set to a parameter of an exported function without copying
+type CallerStore struct {
+	Field string `json:"field"`
+	Param string `json:"param"`
+	Phase string `json:"phase"`
+	Fn    string `json:"fn"`
+	Pos   string `json:"pos"`
+}
+
+// FieldWrite: an in-place write through a struct field of map/slice type
+type FieldWrite struct {
+	Field string `json:"field"`
+	Op    string `json:"op"`
+	Phase string `json:"phase"`
+	Fn    string `json:"fn"`
+	Pos   string `json:"pos"`
+}
+
 type Unknown struct {
 	Phase string `json:"phase"`
 	Fn    string `json:"fn"`
@@ -139,19 +167,22 @@ type Unknown struct {
 }
 
 type Out struct {
-	Repo      string    `json:"repo"`
-	Accesses  []Row     `json:"accesses"`
-	Atomics   []string  `json:"atomicFields"`
-	AtomicUse int       `json:"atomicUses"`
-	Plains    []Plain   `json:"plainUses"`
-	Edges     []Edge    `json:"lockEdges"`
-	Shapes    []Shape   `json:"slotShapes"`
-	Unknowns  []Unknown `json:"unknowns"`
-	Inserts   []Insert  `json:"inserts"`
-	SetupOnly []string  `json:"setupOnly"`
-	Vars      []string  `json:"vars"`
-	CallSites []CallJ   `json:"callSites"`
-	MutexIDs  []string  `json:"mutexNames"` // index = id used in the Lean table
+	Repo      string        `json:"repo"`
+	Accesses  []Row         `json:"accesses"`
+	Atomics   []string      `json:"atomicFields"`
+	AtomicUse int           `json:"atomicUses"`
+	Plains    []Plain       `json:"plainUses"`
+	Edges     []Edge        `json:"lockEdges"`
+	Shapes    []Shape       `json:"slotShapes"`
+	Unknowns  []Unknown     `json:"unknowns"`
+	Inserts   []Insert      `json:"inserts"`
+	Risky     []Risky       `json:"riskyOps"`
+	Stores    []CallerStore `json:"callerStores"`
+	FWrites   []FieldWrite  `json:"fieldWrites"`
+	SetupOnly []string      `json:"setupOnly"`
+	Vars      []string      `json:"vars"`
+	CallSites []CallJ       `json:"callSites"`
+	MutexIDs  []string      `json:"mutexNames"` // index = id used in the Lean table
 }
 
 type CallJ struct {
@@ -218,6 +249,9 @@ type World struct {
 	rows     []Row
 	unknowns []Unknown
 	inserts  []Insert
+	risky    []Risky
+	panMemo  map[*FuncInfo]string
+	panBusy  map[*FuncInfo]bool
 	edges    []Edge
 	plains   []Plain
 	atomics  map[string]bool // field key
@@ -243,6 +277,7 @@ func main() {
 		os.Exit(2)
 	}
 	w.mutMemo = map[*FuncInfo]bool{}
+	w.panMemo, w.panBusy = map[*FuncInfo]string{}, map[*FuncInfo]bool{}
 	w.run()
 	out := w.output()
 	lean := leanText(out)
@@ -414,7 +449,7 @@ func (w *World) run() {
 		}
 	}
 	for iter := 0; iter < 12; iter++ {
-		w.rows, w.unknowns, w.edges, w.inserts = nil, nil, nil, nil
+		w.rows, w.unknowns, w.edges, w.inserts, w.risky = nil, nil, nil, nil, nil
 		w.retMemo, w.retBusy, w.secMemo = map[*FuncInfo][]ref{}, map[*FuncInfo]bool{}, map[*FuncInfo]map[string]int{}
 		w.record = true
 		for _, p := range w.order {
@@ -675,13 +710,14 @@ type state struct {
 	// for every mutex acquired in this function and still held: the map lookups "class|key" performed since its
 	// acquisition on every path (must-set) — the re-check a get-or-create insert needs
 	secReads map[string]map[string]bool
+	defers   map[string]bool // mutexes (acquired in this function) whose unlock has been deferred so far
 	dead     bool
 }
 
 const loopMark = 100
 
 func newState() *state {
-	return &state{held: map[string]bool{}, alias: map[types.Object]ref{}, sec: map[string]int{}, secReads: map[string]map[string]bool{}}
+	return &state{held: map[string]bool{}, alias: map[types.Object]ref{}, sec: map[string]int{}, secReads: map[string]map[string]bool{}, defers: map[string]bool{}}
 }
 
 func maxSec(a, b map[string]int) map[string]int {
@@ -707,6 +743,9 @@ func (s *state) clone() *state {
 	}
 	for k, v := range s.sec {
 		n.sec[k] = v
+	}
+	for k, v := range s.defers {
+		n.defers[k] = v
 	}
 	for k, v := range s.secReads {
 		m := map[string]bool{}
@@ -759,6 +798,19 @@ func (s *state) join(bs ...*state) {
 		sr[mu] = m
 	}
 	s.secReads = sr
+	df := map[string]bool{}
+	for k := range liveBs[0].defers {
+		all := true
+		for _, b := range liveBs[1:] {
+			if !b.defers[k] {
+				all = false
+			}
+		}
+		if all {
+			df[k] = true
+		}
+	}
+	s.defers = df
 	al := map[types.Object]ref{}
 	for _, b := range liveBs {
 		for k, v := range b.alias {
@@ -786,6 +838,167 @@ type an struct {
 	recvObj  types.Object
 	recvT    *types.Named
 	noInsert bool
+	paramsOf *ast.FuncDecl
+	paramsM  map[types.Object]bool
+}
+
+// riskOfExpr: can evaluating this one expression node panic on caller-controlled data?  (not transitive)
+//   - map index with an interface-typed key (a dynamic key of unhashable type panics in the hash function)
+//   - slice / array / string index by a parameter of the enclosing function
+//   - type assertion without comma-ok
+func riskOfExpr(p *Pkg, e ast.Expr, params map[types.Object]bool) string {
+	switch x := e.(type) {
+	case *ast.IndexExpr:
+		if tv, ok := p.info.Types[x.X]; ok && tv.IsType() {
+			return ""
+		}
+		t := p.info.TypeOf(x.X)
+		if t == nil {
+			return ""
+		}
+		if tu, ok := t.(*types.Tuple); ok && tu.Len() > 0 {
+			t = tu.At(0).Type()
+		}
+		switch u := t.Underlying().(type) {
+		case *types.Map:
+			if _, isIface := u.Key().Underlying().(*types.Interface); isIface {
+				return "map index with interface-typed key"
+			}
+		case *types.Slice, *types.Array, *types.Basic, *types.Pointer:
+			if id, ok := ast.Unparen(x.Index).(*ast.Ident); ok && params[p.info.Uses[id]] {
+				return "index by parameter " + id.Name
+			}
+		}
+	case *ast.TypeAssertExpr:
+		if x.Type == nil {
+			return ""
+		}
+		if _, commaOk := p.info.TypeOf(x).(*types.Tuple); commaOk {
+			return ""
+		}
+		// v.Load().(*T) on a sync/atomic.Value the package fills itself: not caller-controlled
+		if ce, ok := ast.Unparen(x.X).(*ast.CallExpr); ok {
+			if sel, ok := ce.Fun.(*ast.SelectorExpr); ok && sel.Sel.Name == "Load" && selfSync(p.info.TypeOf(sel.X)) {
+				return ""
+			}
+		}
+		return "type assertion without comma-ok"
+	}
+	return ""
+}
+
+func paramSet(p *Pkg, fd *ast.FuncDecl) map[types.Object]bool {
+	m := map[types.Object]bool{}
+	if fd == nil || fd.Type.Params == nil {
+		return m
+	}
+	for _, f := range fd.Type.Params.List {
+		for _, n := range f.Names {
+			if o := p.info.Defs[n]; o != nil {
+				m[o] = true
+			}
+		}
+	}
+	return m
+}
+
+// mayPanic: "" or why a call of f can panic on caller-controlled data (syntactic, transitive over static calls into
+// the analysed packages; function literals are not entered)
+func (w *World) mayPanic(f *FuncInfo) string {
+	if r, ok := w.panMemo[f]; ok {
+		return r
+	}
+	if w.panBusy[f] {
+		return ""
+	}
+	w.panBusy[f] = true
+	p := f.pkg
+	params := paramSet(p, f.decl)
+	why := ""
+	ast.Inspect(f.decl.Body, func(n ast.Node) bool {
+		if why != "" {
+			return false
+		}
+		switch x := n.(type) {
+		case *ast.FuncLit:
+			return false
+		case *ast.IndexExpr, *ast.TypeAssertExpr:
+			if r := riskOfExpr(p, x.(ast.Expr), params); r != "" {
+				why = r + " @ " + w.pos(n.Pos())
+			}
+		case *ast.CallExpr:
+			if r := w.riskOfCall(p, x); r != "" {
+				why = r
+			}
+		}
+		return true
+	})
+	w.panBusy[f] = false
+	w.panMemo[f] = why
+	return why
+}
+
+// riskOfCall: delete with interface key, explicit panic, call through a function value, call of an analysed function
+// that may panic
+func (w *World) riskOfCall(p *Pkg, ce *ast.CallExpr) string {
+	if tv, ok := p.info.Types[ce.Fun]; ok && tv.IsType() {
+		return ""
+	}
+	if id, ok := ast.Unparen(ce.Fun).(*ast.Ident); ok {
+		if _, isB := p.info.Uses[id].(*types.Builtin); isB {
+			switch id.Name {
+			case "panic":
+				return "explicit panic @ " + w.pos(ce.Pos())
+			case "delete":
+				if t := p.info.TypeOf(ce.Args[0]); t != nil {
+					if m, ok := t.Underlying().(*types.Map); ok {
+						if _, isIface := m.Key().Underlying().(*types.Interface); isIface {
+							return "delete from a map with interface-typed key @ " + w.pos(ce.Pos())
+						}
+					}
+				}
+			}
+			return ""
+		}
+	}
+	if _, isLit := ast.Unparen(ce.Fun).(*ast.FuncLit); isLit {
+		return ""
+	}
+	var fo *types.Func
+	switch f := ast.Unparen(ce.Fun).(type) {
+	case *ast.Ident:
+		fo, _ = p.info.Uses[f].(*types.Func)
+	case *ast.SelectorExpr:
+		fo, _ = p.info.Uses[f.Sel].(*types.Func)
+	}
+	if fo == nil {
+		if _, isSig := p.info.TypeOf(ce.Fun).(*types.Signature); isSig {
+			return "call through a function value @ " + w.pos(ce.Pos())
+		}
+		return ""
+	}
+	if g := w.funcOf(fo); g != nil {
+		if r := w.mayPanic(g); r != "" {
+			if strings.HasPrefix(r, "call of ") {
+				return r
+			}
+			return "call of " + g.key + " (" + r + ")"
+		}
+	}
+	return ""
+}
+
+// risk records a panic-capable operation for every critical section that was opened in this function and is still open
+func (a *an) risk(st *state, why string, pos token.Pos) {
+	if why == "" || a.top || !a.rec {
+		return
+	}
+	for mu := range st.secReads { // the mutexes acquired in this function and still held
+		if _, held := st.held[mu]; !held {
+			continue
+		}
+		a.w.risky = append(a.w.risky, Risky{Mu: mu, Op: why, Deferred: st.defers[mu], Phase: a.phase(), Fn: a.fn.key, Pos: a.w.pos(pos)})
+	}
 }
 
 // insert records a map insertion `G[k] = v` (lost-insert rule): `guards` are the mutexes held in write mode here whose
@@ -893,6 +1106,13 @@ func (a *an) recvField(e ast.Expr) (*types.Var, Class, bool) {
 		pk = relPath(a.recvT.Obj().Pkg().Path())
 	}
 	return fv, Class{Pkg: pk, Var: a.recvT.Obj().Name() + "." + fv.Name()}, true
+}
+
+func (a *an) params() map[types.Object]bool {
+	if a.paramsOf != a.fn.decl || a.paramsM == nil {
+		a.paramsOf, a.paramsM = a.fn.decl, paramSet(a.p, a.fn.decl)
+	}
+	return a.paramsM
 }
 
 func (a *an) isOwnRecv(e ast.Expr) bool {
@@ -1209,6 +1429,7 @@ func (a *an) refOf(st *state, e ast.Expr) ref {
 		}
 		c := a.refOf(st, x.X)
 		a.refOf(st, x.Index)
+		a.risk(st, riskOfExpr(a.p, x, a.params()), x.Pos())
 		if c.ok {
 			a.access(st, c, false, x.Pos())
 			if _, isMap := a.typeOf(x.X).Underlying().(*types.Map); isMap {
@@ -1269,6 +1490,7 @@ func (a *an) refOf(st *state, e ast.Expr) ref {
 		return a.refOf(st, x.Value)
 	case *ast.TypeAssertExpr:
 		a.refOf(st, x.X)
+		a.risk(st, riskOfExpr(a.p, x, a.params()), x.Pos())
 		return ref{}
 	case *ast.CompositeLit:
 		for _, el := range x.Elts {
@@ -1427,6 +1649,7 @@ func (a *an) acquire(st *state, mu string, wmode bool, pos token.Pos) {
 	}
 	st.held[mu] = wmode
 	st.secReads[mu] = map[string]bool{}
+	delete(st.defers, mu)
 	if wmode {
 		a.addSec(st, mu+"|W", 1)
 	} else {
@@ -1508,6 +1731,9 @@ func (a *an) call(st *state, ce *ast.CallExpr, deferred bool) []ref {
 		}
 		return nil
 	}
+	if !deferred {
+		a.risk(st, a.w.riskOfCall(a.p, ce), ce.Pos())
+	}
 	// immediately invoked function literal
 	if fl, ok := ast.Unparen(ce.Fun).(*ast.FuncLit); ok {
 		for _, arg := range ce.Args {
@@ -1532,6 +1758,8 @@ func (a *an) call(st *state, ce *ast.CallExpr, deferred bool) []ref {
 		case "Unlock", "RUnlock":
 			if !deferred {
 				a.release(st, mu, ce.Pos())
+			} else {
+				st.defers[mu] = true
 			}
 		default:
 			a.unknown(ce.Pos(), "TryLock outside an `if` condition")
@@ -1840,6 +2068,7 @@ func (a *an) assignTo(st *state, lhs ast.Expr, r ref, rhs ast.Expr, define bool)
 	case *ast.IndexExpr:
 		c := a.refOf(st, x.X)
 		a.refOf(st, x.Index)
+		a.risk(st, riskOfExpr(a.p, x, a.params()), x.Pos())
 		if c.ok {
 			a.access(st, c, true, x.Pos())
 			if _, isMap := a.typeOf(x.X).Underlying().(*types.Map); isMap && !a.noInsert {
@@ -2360,6 +2589,102 @@ func (w *World) findAtomics(p *Pkg) {
 	}
 }
 
+// callerData: (a) stores of a parameter of an exported function into a map/slice-typed struct field without copying,
+// (b) in-place writes through map/slice-typed struct fields.  Purely syntactic, per package.
+func (w *World) callerData() ([]CallerStore, []FieldWrite) {
+	var stores []CallerStore
+	var writes []FieldWrite
+	for _, p := range w.order {
+		if !p.track {
+			continue
+		}
+		fieldOf := func(e ast.Expr) (string, bool) {
+			sel, ok := ast.Unparen(e).(*ast.SelectorExpr)
+			if !ok {
+				return "", false
+			}
+			s, ok := p.info.Selections[sel]
+			if !ok || s.Kind() != types.FieldVal {
+				return "", false
+			}
+			fv := s.Obj().(*types.Var)
+			if !isContainer(fv.Type()) {
+				return "", false
+			}
+			return typeName(s.Recv()) + "." + fv.Name(), true
+		}
+		for _, f := range sortedFuncs(p) {
+			if f.decl.Body == nil {
+				continue
+			}
+			params := map[types.Object]string{}
+			if ast.IsExported(f.name) {
+				for o := range paramSet(p, f.decl) {
+					if isContainer(o.Type()) {
+						params[o] = o.Name()
+					}
+				}
+			}
+			var rootParam func(e ast.Expr) (string, bool)
+			rootParam = func(e ast.Expr) (string, bool) {
+				switch x := ast.Unparen(e).(type) {
+				case *ast.Ident:
+					n, ok := params[p.info.Uses[x]]
+					return n, ok
+				case *ast.SliceExpr:
+					return rootParam(x.X)
+				case *ast.CallExpr: // conversion
+					if tv, ok := p.info.Types[x.Fun]; ok && tv.IsType() && len(x.Args) == 1 {
+						return rootParam(x.Args[0])
+					}
+				}
+				return "", false
+			}
+			ast.Inspect(f.decl.Body, func(n ast.Node) bool {
+				switch x := n.(type) {
+				case *ast.AssignStmt:
+					for i, l := range x.Lhs {
+						if fld, ok := fieldOf(l); ok && x.Tok == token.ASSIGN && i < len(x.Rhs) && len(x.Lhs) == len(x.Rhs) {
+							if pn, ok := rootParam(x.Rhs[i]); ok {
+								stores = append(stores, CallerStore{Field: fld, Param: pn, Phase: f.phase, Fn: f.key, Pos: w.pos(l.Pos())})
+							}
+							// x.f = append(x.f, ...) may write into the backing array x.f shares with its source
+							if ce, ok := ast.Unparen(x.Rhs[i]).(*ast.CallExpr); ok {
+								if id, ok := ce.Fun.(*ast.Ident); ok && id.Name == "append" && len(ce.Args) > 0 {
+									if f2, ok := fieldOf(ce.Args[0]); ok && f2 == fld {
+										writes = append(writes, FieldWrite{Field: fld, Op: "append", Phase: f.phase, Fn: f.key, Pos: w.pos(l.Pos())})
+									}
+								}
+							}
+						}
+						if ix, ok := ast.Unparen(l).(*ast.IndexExpr); ok {
+							if fld, ok := fieldOf(ix.X); ok {
+								writes = append(writes, FieldWrite{Field: fld, Op: "element assignment", Phase: f.phase, Fn: f.key, Pos: w.pos(l.Pos())})
+							}
+						}
+					}
+				case *ast.IncDecStmt:
+					if ix, ok := ast.Unparen(x.X).(*ast.IndexExpr); ok {
+						if fld, ok := fieldOf(ix.X); ok {
+							writes = append(writes, FieldWrite{Field: fld, Op: "element update", Phase: f.phase, Fn: f.key, Pos: w.pos(x.Pos())})
+						}
+					}
+				case *ast.CallExpr:
+					if id, ok := x.Fun.(*ast.Ident); ok && (id.Name == "delete" || id.Name == "clear" || id.Name == "copy") && len(x.Args) > 0 {
+						if _, isB := p.info.Uses[id].(*types.Builtin); isB {
+							if fld, ok := fieldOf(x.Args[0]); ok {
+								writes = append(writes, FieldWrite{Field: fld, Op: id.Name, Phase: f.phase, Fn: f.key, Pos: w.pos(x.Pos())})
+							}
+						}
+					}
+				}
+				return true
+			})
+		}
+	}
+	return stores, writes
+}
+
 // plainUses lists every non-atomic use of a field / variable that is elsewhere used atomically.
 func (w *World) plainUses() {
 	for _, p := range w.order {
@@ -2539,6 +2864,24 @@ func (w *World) output() *Out {
 		o.Inserts = append(o.Inserts, r)
 	}
 	sort.SliceStable(o.Inserts, func(i, j int) bool { return o.Inserts[i].Class+o.Inserts[i].Pos < o.Inserts[j].Class+o.Inserts[j].Pos })
+	o.Risky = []Risky{}
+	rk := map[string]bool{}
+	for _, r := range w.risky {
+		k := r.Mu + "|" + r.Pos + "|" + r.Op + "|" + r.Fn
+		if rk[k] {
+			continue
+		}
+		rk[k] = true
+		o.Risky = append(o.Risky, r)
+	}
+	sort.SliceStable(o.Risky, func(i, j int) bool { return o.Risky[i].Pos+o.Risky[i].Mu < o.Risky[j].Pos+o.Risky[j].Mu })
+	o.Stores, o.FWrites = w.callerData()
+	if o.Stores == nil {
+		o.Stores = []CallerStore{}
+	}
+	if o.FWrites == nil {
+		o.FWrites = []FieldWrite{}
+	}
 	for k := range setupOnly {
 		o.SetupOnly = append(o.SetupOnly, k)
 	}
@@ -2618,6 +2961,9 @@ func leanText(o *Out) string {
 			mu(g)
 		}
 	}
+	for _, r := range o.Risky {
+		mu(r.Mu)
+	}
 	defer func() { o.MutexIDs = muNames }()
 	b.WriteString("def classNames : List (Nat × String) := [\n")
 	for i, n := range clsNames {
@@ -2669,6 +3015,28 @@ func leanText(o *Out) string {
 			cid = 1 << 30
 		}
 		fmt.Fprintf(&b, "  ⟨%d, %d, [%s], %s, .%s, %s, %s, %s⟩%s\n", i, cid, strings.Join(gs, ", "), lbool(r.Rechecked), r.Phase, lstr(r.Fn), lstr(r.Pos), lstr(r.Key), comma(i, len(o.Inserts)))
+	}
+	b.WriteString("]\n\ndef riskyOps : List RiskyOp := [\n")
+	for i, r := range o.Risky {
+		fmt.Fprintf(&b, "  ⟨%d, %d, %s, .%s, %s, %s, %s⟩%s\n", i, mu(r.Mu), lbool(r.Deferred), r.Phase, lstr(r.Fn), lstr(r.Pos), lstr(r.Op), comma(i, len(o.Risky)))
+	}
+	fieldID := map[string]int{}
+	var fieldNames []string
+	fid2 := func(s string) int {
+		if id, ok := fieldID[s]; ok {
+			return id
+		}
+		fieldID[s] = len(fieldNames)
+		fieldNames = append(fieldNames, s)
+		return fieldID[s]
+	}
+	b.WriteString("]\n\ndef callerStores : List CallerStore := [\n")
+	for i, r := range o.Stores {
+		fmt.Fprintf(&b, "  ⟨%d, %d, .%s, %s, %s, %s⟩%s\n", i, fid2(r.Field), r.Phase, lstr(r.Fn), lstr(r.Pos), lstr(r.Field+" = "+r.Param), comma(i, len(o.Stores)))
+	}
+	b.WriteString("]\n\ndef fieldWrites : List FieldWrite := [\n")
+	for i, r := range o.FWrites {
+		fmt.Fprintf(&b, "  ⟨%d, %d, .%s, %s, %s, %s⟩%s\n", i, fid2(r.Field), r.Phase, lstr(r.Fn), lstr(r.Pos), lstr(r.Field+": "+r.Op), comma(i, len(o.FWrites)))
 	}
 	b.WriteString("]\n\ndef unknowns : List Unknown := [\n")
 	for i, u := range o.Unknowns {
